@@ -19,13 +19,11 @@
 (* property formulas can be stated as "NoDev => P" and every manifestation *)
 (* of a known finding is attributable (DESIGN section 2.2).                *)
 (***************************************************************************)
-EXTENDS Integers, Sequences, FiniteSets, TLC, Tables, Headers
+EXTENDS Integers, Sequences, FiniteSets, TLC, Tables, Headers, Windows
 
-MAXW == 2147483647
 None == <<>>
 Some(x) == <<x>>
 
-Min(a, b) == IF a <= b THEN a ELSE b
 \* Numbers of 2^31 and more are written as their 32-bit two's complement (negative): unsigned comparison, and the 31 bits of a
 \* stream id that reach the wire.
 UGt(a, b) == IF (a < 0) = (b < 0) THEN a > b ELSE a < 0
@@ -148,18 +146,7 @@ TooBig(sizes, mof) == \E i \in 1..Len(sizes) : sizes[i] > mof
 AddSizes(f, sizes) == IF sizes = <<>> THEN f ELSE f @@ [sizes |-> sizes]
 AssertionFailure == Exc("foreign:AssertionError", -1)
 
-\* ---------------------------------------------------------------- inbound window manager (h2.windows.WindowManager)
-WM(max) == [max |-> max, cur |-> max, bp |-> 0]
-Overflows(cur, inc) == cur > 0 /\ inc > MAXW - cur            \* cur + inc > 2^31-1 without forming the sum
-WMConsume(w, n) == [w EXCEPT !.cur = @ - n]                    \* caller checks cur < 0 afterwards
-WMOpen(w, n) ==                                                \* caller checks Overflows first
-  LET c == w.cur + n IN [w EXCEPT !.cur = c, !.max = IF c > @ THEN c ELSE @]
-WMProcess(w, n) ==                                             \* process_bytes + _maybe_update_window
-  LET bp == w.bp + n
-      maxInc == w.max - w.cur
-      fire == (w.cur = 0 /\ bp > Min(1024, w.max \div 4)) \/ (bp >= w.max \div 2)
-      inc == IF bp = 0 THEN 0 ELSE IF fire THEN Min(bp, maxInc) ELSE 0
-  IN [w |-> [w EXCEPT !.bp = IF bp # 0 /\ fire THEN 0 ELSE bp, !.cur = @ + inc], inc |-> inc]
+\* (inbound window manager: module Windows)
 
 \* ---------------------------------------------------------------- streams
 NewStream(ep) ==
